@@ -2,6 +2,7 @@ import CCVerif.Model.Extract
 import CCVerif.Lemmas.Extract
 import CCVerif.Lemmas.ExtractGen
 import CCVerif.Lemmas.ExtractGenFrag
+import CCVerif.Lemmas.CheckerWfCarrier
 /-!
 # C13 — basis and maximal-part extraction return closed, complete, well-formed schemas
 
@@ -503,5 +504,96 @@ theorem skeleton_locality_needed_counterexample :
   have hl : Lawful countA := ⟨rfl, fun _ _ _ _ _ => rfl, fun _ _ _ _ _ hm _ _ => by cases hm⟩
   exact ⟨hl, WF.run hl (by decide), ⟨by decide, by decide⟩, closed_of_closedB (by decide), by decide,
     by decide, by decide, by decide⟩
+
+end CCVerif.ExtractGen
+
+/-! # the COPY step for the TYPE-CHECKER model, on the carrier of grammar-shaped definitions
+
+`checkerR` (`Lemmas/CheckerRename.lean`): the C03 type checker as the analysis, `TranslateRS` on the tokens as
+`rename`; `checkerEquivariance` is the C08 equivariance. The two hypotheses `extract_status_type_preserved`
+leaves open for an analysis are DISCHARGED here (`Lemmas/CheckerWfCarrier.lean`):
+
+* `SkelLocalOn` — `checker_skelLocal`: with constant traits (`Schema::TraitsFor` as a constant, as in the C11
+  instance) the checker does not read the skeleton;
+* admissibility `hadm` — `checker_admits`: on GRAMMAR-SHAPED definitions (`defShaped`: a phrase of the grammar,
+  `Wf.wf .ND` — what C06 `parse_gives_WfParsed` gives below the declaration — whose radical tokens, called names
+  and declared variables carry the kind of text the lexer gives them, `shapeOK`) every table that is injective on
+  the names of the selection and maps good names (`GoodName`: a letter block that is neither `R0` nor a radical —
+  the name-shape condition of C08 `relex_stable`) to good names extends to a `NameBij`, and
+  `CRen.ofNameBij` of it (tokens renamed, base names of the typification renamed block-wise, so the mangled
+  `R1F1` follows `F1`) is an admissible renaming that is good for every selected constituent. -/
+namespace CCVerif.ExtractGen
+open CCVerif CCVerif.SchemaGen
+open CCVerif.Checker (GoodName NameBij CRen)
+
+/-- **extract_status_type_preserved_checker.** The type-checker model (`checkerR`, constant traits): for every
+well-formed source (C07 invariant) satisfying the identity invariant `SourceOk`, every closed selection without
+capture (`NoCapture`, the explicit proviso) of grammar-shaped constituents whose names and new aliases are good
+names apart from the trait keys: there is ONE bijection of names `n` that acts like the table of `ResetAliases`
+on every name of the selection, and every result entry is the source entry renamed by it — same status,
+typification and declared argument types with `n` applied to every block of every base name
+(`renCInfo (CRen.ofNameBij n)`). No hypothesis on the analysis is left. -/
+theorem extract_status_type_preserved_checker {g : Names} (traits : Types.TraitEnv) {src : St CDef CInfo}
+    (hwf : WF (checkerR fun _ => traits) src) (hok : SourceOk g src)
+    {sel : List Nat} (hsel : sel.Nodup) {cs : List (Cst CDef)} (hcs : selectedCsts src sel = some cs)
+    (hbf : BasesFirst cs) {res : Sch CDef CInfo} (h : copyOut (checkerR fun _ => traits) g src sel = some res)
+    (hcl : Closed (checkerR fun _ => traits) src cs) (hnc : NoCapture (checkerR fun _ => traits) g src cs)
+    (hshape : ∀ c ∈ cs, defShaped c.defn = true)
+    (hgood : ∀ x ∈ namesOfG (checkerR fun _ => traits) cs, GoodName x ∧ GoodName (renOf (aliasTable g cs) x))
+    (htr : ∀ p ∈ traits, Blocks.isBlock p.1.toList = true ∧ p.1 ∉ namesOfG (checkerR fun _ => traits) cs ∧
+      p.1 ∉ (namesOfG (checkerR fun _ => traits) cs).map (renOf (aliasTable g cs))) :
+    ∃ n : NameBij, (∀ x ∈ namesOfG (checkerR fun _ => traits) cs, n.b.f x = renOf (aliasTable g cs) x) ∧
+      ∀ c ∈ cs, res.st.infoFor (checkerR fun _ => traits) c.uid =
+        renCInfo (CRen.ofNameBij n) (src.infoFor (checkerR fun _ => traits) c.uid) := by
+  have hA := checkerR_lawful fun _ => traits
+  obtain ⟨st1, r0, _, _, hinv, htab, _, _⟩ := copyOut_spec hA hok hsel hcs hbf h
+  obtain ⟨_, hat⟩ := selectedCsts_spec sel cs hcs
+  have hsub : ∀ c ∈ cs, c ∈ src.store := fun c hc => (mem_of_at (hat c hc)).1
+  have hinj := renOf_injOn_names hwf.base.nodup hok.distinct hsub hinv htab hcl hnc
+  obtain ⟨n, hT, hG, hag⟩ := checker_admits traits cs (renOf (aliasTable g cs)) hshape hgood htr hinj
+  exact ⟨n, hag, copyOut_info hA (checkerEquivariance fun _ => traits) hwf hok hsel hcs hbf h hcl
+    (fun s1 _ => checker_skelLocal traits _ s1) (constRen traits n hT) hG hag⟩
+
+/-- `X1`, `X2` base sets; `D1 := X2\X2`, `D2 := X1\X1`, `D3 := D1\X2` -/
+def srcChecker : St CDef CInfo :=
+  run (checkerR fun _ => []) [.insert ⟨1, "X1", .base, none⟩, .insert ⟨2, "X2", .base, none⟩,
+    .insert ⟨3, "D1", .term, some (setMinus (glob "X2") (glob "X2"))⟩,
+    .insert ⟨4, "D2", .term, some (setMinus (glob "X1") (glob "X1"))⟩,
+    .insert ⟨5, "D3", .term, some (setMinus (glob "D1") (glob "X2"))⟩]
+
+private def csChecker : List (Cst CDef) :=
+  [⟨2, "X2", .base, none⟩, ⟨3, "D1", .term, some (setMinus (glob "X2") (glob "X2"))⟩,
+   ⟨5, "D3", .term, some (setMinus (glob "D1") (glob "X2"))⟩]
+
+/-- a closed extraction on the checker model: the basis of `D3` is `X2 D1 D3`; `X2` becomes `X1`, `D3` becomes
+`D2`, the mentions follow, and the typification `ℬ(X2)` of all three becomes `ℬ(X1)` -/
+theorem extract_copy_checker_example :
+    (copyOut (checkerR fun _ => []) realNames srcChecker [2, 3, 5]).map
+        (fun r => (r.order, r.st.store, r.st.report (checkerR fun _ => []))) =
+      some ([2, 3, 5],
+        [⟨2, "X1", .base, none⟩, ⟨3, "D1", .term, some (setMinus (glob "X1") (glob "X1"))⟩,
+         ⟨5, "D2", .term, some (setMinus (glob "D1") (glob "X1"))⟩],
+        [(2, { status := .verified, ty := some (.ty (.coll (.base "X1"))) }),
+         (3, { status := .verified, ty := some (.ty (.coll (.base "X1"))) }),
+         (5, { status := .verified, ty := some (.ty (.coll (.base "X1"))) })]) ∧
+    (csChecker.map fun c => srcChecker.infoFor (checkerR fun _ => []) c.uid) =
+      [{ status := .verified, ty := some (.ty (.coll (.base "X2"))) },
+       { status := .verified, ty := some (.ty (.coll (.base "X2"))) },
+       { status := .verified, ty := some (.ty (.coll (.base "X2"))) }] ∧
+    aliasTable realNames csChecker = [("X2", "X1"), ("D3", "D2")] := by
+  decide +kernel
+
+/-- non-vacuity of `extract_status_type_preserved_checker`: every hypothesis holds on that instance -/
+example : WF (checkerR fun _ => []) srcChecker ∧ SourceOk realNames srcChecker ∧
+    selectedCsts srcChecker [2, 3, 5] = some csChecker ∧ BasesFirst csChecker ∧
+    Closed (checkerR fun _ => []) srcChecker csChecker ∧
+    NoCapture (checkerR fun _ => []) realNames srcChecker csChecker ∧
+    (∀ c ∈ csChecker, defShaped c.defn = true) ∧
+    (∀ x ∈ namesOfG (checkerR fun _ => []) csChecker,
+      GoodName x ∧ GoodName (renOf (aliasTable realNames csChecker) x)) ∧
+    (copyOut (checkerR fun _ => []) realNames srcChecker [2, 3, 5]).isSome = true :=
+  ⟨WF.run (checkerR_lawful _) (by decide +kernel), ⟨by decide +kernel, by decide +kernel⟩, by decide +kernel,
+    by decide +kernel, closed_of_closedB (by decide +kernel), by decide +kernel, by decide +kernel,
+    by decide +kernel, by decide +kernel⟩
 
 end CCVerif.ExtractGen
